@@ -71,7 +71,10 @@ RAW_MODULES = [RawModule("m0_holder", os.path.join(VERIF, "harness", "bridge_sup
                          {"c03_stored_fnmut_callback": ["C03", "C01"], "c03_stored_fn_callback": ["C03", "C01"]}),
                RawModule("m0_rawwrite", os.path.join(VERIF, "harness", "bridge_support", "m0_rawwrite.rs"),
                          {"c12_flush_with_value_return": ["C12"], "c12_flush_with_result_value_return": ["C12"],
-                          "c12_flush_plain": ["C12"], "c12_flush_result_unit": ["C12"]}, needs_headers=False)]
+                          "c12_flush_plain": ["C12"], "c12_flush_result_unit": ["C12"]}, needs_headers=False),
+               RawModule("m0_unitopaque", os.path.join(VERIF, "harness", "bridge_support", "m0_unitopaque.rs"),
+                         {"c03_unit_struct_opaque_destroy": ["C03"], "c03_empty_struct_opaque_destroy": ["C03"],
+                          "c03_tuple_struct_opaque_destroy": ["C03"]}, needs_headers=False)]
 
 
 def modules_for(tier_, seed_):
